@@ -23,6 +23,12 @@ func TimeCoercerFactory(format func(data string) (time.Time, error)) CoercerFunc
 			return time.Unix(int64(v), 0), nil
 		case int64:
 			return time.Unix(v, 0), nil
+		case float64:
+			// numbers of a JSON document arrive as float64: whole unix seconds are the same input as the int above
+			if v == math.Trunc(v) && v >= -float64(1<<62) && v <= float64(1<<62) {
+				return time.Unix(int64(v), 0), nil
+			}
+			return nil, fmt.Errorf("input data is not a whole number of unix seconds: %v", data)
 		default:
 			return nil, fmt.Errorf("input data is an unsupported type to coerce to time.Time: %v", data)
 		}
@@ -60,6 +66,13 @@ var DefaultCoercers = struct {
 				return boolVal, nil
 			}
 		case int:
+			if v == 0 {
+				return false, nil
+			} else if v == 1 {
+				return true, nil
+			}
+		case float64:
+			// numbers of a JSON document arrive as float64: 0 and 1 are the same input as the ints above
 			if v == 0 {
 				return false, nil
 			} else if v == 1 {
